@@ -281,4 +281,59 @@ theorem fifoReplayFrom_prefix {q q' : List Nat} {os : List FifoOp}
         | nil => simp [fifoStep] at hs; subst hs; simp [enqs, deqs] at *; exact h2
         | cons w q => simp [fifoStep] at hs
 
+/-! ### take-everything: a flush returns exactly what was pushed since the previous flush -/
+
+/-- the (node, value) pairs pushed by a history, in push order -/
+def pushesOf : List StackOp → List (Nat × Nat)
+  | [] => []
+  | .push n v :: os => (n, v) :: pushesOf os
+  | _ :: os => pushesOf os
+
+def isPushOp : StackOp → Bool
+  | .push _ _ => true
+  | _ => false
+
+theorem replay_pushes {st : List (Nat × Nat)} {mid : List StackOp}
+    (hmid : ∀ o ∈ mid, isPushOp o = true) :
+    stackReplayFrom st mid = some ((pushesOf mid).reverse ++ st) := by
+  induction mid generalizing st with
+  | nil => simp [stackReplayFrom, pushesOf]
+  | cons o mid ih =>
+    have ho := hmid o (by simp)
+    cases o <;> simp [isPushOp] at ho
+    rename_i n v
+    simp only [stackReplayFrom, stackStep, pushesOf]
+    rw [ih (fun o' ho' => hmid o' (by simp [ho']))]
+    simp
+
+/-- legal history `pre ++ mid ++ [flush l]`, the stack empty after `pre` (nothing yet, or
+    `pre` ends with a flush), only pushes in `mid`: then `l` is exactly what `mid` pushed,
+    each once, newest first -/
+theorem flush_since {pre mid : List StackOp} {l st : List (Nat × Nat)}
+    (h : stackReplay (pre ++ mid ++ [.flush l]) = some st)
+    (hpre : stackReplay pre = some [])
+    (hmid : ∀ o ∈ mid, isPushOp o = true) : l = (pushesOf mid).reverse ∧ st = [] := by
+  simp only [stackReplay, stackReplayFrom_append] at h hpre
+  rw [hpre] at h
+  simp only [Option.bind_some] at h
+  rw [replay_pushes hmid] at h
+  simp [stackReplayFrom, stackStep] at h
+  split at h
+  · simp at h
+  · rename_i st' heq
+    split at heq
+    · rename_i hl
+      simp at heq h
+      exact ⟨hl, by rw [← h, ← heq]⟩
+    · simp at heq
+
+theorem replay_flush_empty {pre : List StackOp} {l st : List (Nat × Nat)}
+    (h : stackReplay (pre ++ [.flush l]) = some st) : st = [] := by
+  rw [stackReplay_snoc] at h
+  cases h1 : stackReplay pre with
+  | none => simp [h1] at h
+  | some st1 =>
+    simp [h1, stackStep] at h
+    exact h.2
+
 end LibfiberVerif.NodeList
